@@ -3,8 +3,8 @@ F = "src/query/comparable.rs"
 VAL_REL = "r.root == {st}.root && !(r.data is Refs) && denote(r.data) == {val}"
 
 UNITS = [
-    Unit(name="Comparable::process", file=F, impl="impl Query for Comparable", fn="process", order=42,
-         trait_method=True, serves=["C04", "C05", "C10"],
+    Unit(name="Comparable::process", calls=['Literal::process', 'TestFunction::process', 'SingularQuery::process'], file=F, impl="impl Query for Comparable", fn="process", order=42,
+         trait_method=True, serves=["C04", "C10"],
          impl_extra="""
     open spec fn process_pre<'a, T: Queryable>(&self, state: State<'a, T>) -> bool { wf_comparable(*self) && is_cur(state) }
     open spec fn process_rel<'a, T: Queryable>(&self, state: State<'a, T>, r: State<'a, T>) -> bool {
@@ -21,8 +21,8 @@ UNITS = [
     }
 """,
          ensures=[("rel", "self.process_rel(state, r)")]),
-    Unit(name="SingularQuery::process", file=F, impl="impl Query for SingularQuery", fn="process", order=43,
-         trait_method=True, serves=["C04", "C05"],
+    Unit(name="SingularQuery::process", calls=['Vec<SingularQuerySegment>::process'], file=F, impl="impl Query for SingularQuery", fn="process", order=43,
+         trait_method=True, serves=["C04"],
          impl_extra="""
     open spec fn process_pre<'a, T: Queryable>(&self, state: State<'a, T>) -> bool { wf_sq(*self) && is_cur(state) }
     open spec fn process_rel<'a, T: Queryable>(&self, state: State<'a, T>, r: State<'a, T>) -> bool {
@@ -31,8 +31,8 @@ UNITS = [
 """,
          ensures=[("rel", "self.process_rel(step, r)")],
          body_prefix="proof { lemma_cur_nodes(step); }"),
-    Unit(name="SingularQuerySegment::process", file=F, impl="impl Query for SingularQuerySegment", fn="process", order=43,
-         trait_method=True, serves=["C04", "C05", "C08"],
+    Unit(name="SingularQuerySegment::process", calls=['State::flat_map'], file=F, impl="impl Query for SingularQuerySegment", fn="process", order=43,
+         trait_method=True, serves=["C04", "C08"],
          impl_extra="""
     open spec fn process_pre<'a, T: Queryable>(&self, state: State<'a, T>) -> bool { *self matches SingularQuerySegment::Index(k) ==> ijson(k as int) }
     open spec fn process_rel<'a, T: Queryable>(&self, state: State<'a, T>, r: State<'a, T>) -> bool {
@@ -47,8 +47,8 @@ UNITS = [
              2: Cl(expect="process_key(d, key)", types=["Pointer<'a, T>"], ret="(o: Data<'a, T>)",
                    ensures=[("nodes", "(o is Ref || o is Nothing) && nodes(o) == sel_name(nd(d), key@)")]),
          }),
-    Unit(name="Vec<SingularQuerySegment>::process", file=F, impl="impl Query for Vec<SingularQuerySegment>", fn="process", order=43,
-         trait_method=True, serves=["C04", "C05"],
+    Unit(name="Vec<SingularQuerySegment>::process", calls=['SingularQuerySegment::process'], file=F, impl="impl Query for Vec<SingularQuerySegment>", fn="process", order=43,
+         trait_method=True, serves=["C04"],
          impl_extra="""
     open spec fn process_pre<'a, T: Queryable>(&self, state: State<'a, T>) -> bool { wf_sq_segs(self@) }
     open spec fn process_rel<'a, T: Queryable>(&self, state: State<'a, T>, r: State<'a, T>) -> bool {
